@@ -11,7 +11,7 @@ Separate Extraction
   Shape.loop_shape Shape.fmt_input Shape.fmt_output_shape Shape.batch_eval Shape.broadcastable_to Shape.atleast_1d
   Order.inputs_ordered Order.coupling_ordered Order.outputs Order.stream_assignment
   Sys.is_topological Sys.eval Sys.eval_targets
-  Refine.select Refine.indicator
+  Refine.select Refine.indicator Refine.select_sq Refine.indicator_sq Refine.rel_sq Refine.delta_sq
   Grid.run_history Grid.beta_to_knots Grid.grid_coords Cost.allocation Cost.allocation_upto Cost.actual
   Sched.executor_path Sched.serial_path Sched.error_indices
   Codec.show_tuple Codec.parse_tuple Codec.show_pair Codec.parse_pair Codec.save_tree Codec.load_tree Codec.save_index_set Codec.load_index_set
